@@ -97,10 +97,11 @@ func (prop) Run(t *testing.T, s *sim.Sim, res *runner.Result) {
 					return err
 				}
 			}
-			for _, n := range []string{"creds-a", "creds-b"} {
+			for _, nn := range []string{"crossplane-system/creds-a", "crossplane-system/creds-b", "team-b/creds-a"} {
+				ns, n := strings.SplitN(nn, "/", 2)[0], strings.SplitN(nn, "/", 2)[1]
 				sec := &unstructured.Unstructured{Object: map[string]any{"apiVersion": "v1", "kind": "Secret",
-					"metadata": map[string]any{"name": n, "namespace": "crossplane-system"},
-					"data":     map[string]any{"token": base64.StdEncoding.EncodeToString([]byte(n + "-0"))}}}
+					"metadata": map[string]any{"name": n, "namespace": ns},
+					"data":     map[string]any{"token": base64.StdEncoding.EncodeToString([]byte(nn + "-0"))}}}
 				if err := w.Direct.Create(ctx, sec); err != nil {
 					return err
 				}
@@ -211,13 +212,14 @@ func (st *state) editExtra(tp *sim.Tape) {
 
 func (st *state) editSecret(tp *sim.Tape) {
 	ctx := context.Background()
-	n := []string{"creds-a", "creds-b"}[tp.Next(2)]
+	nn := []string{"crossplane-system/creds-a", "crossplane-system/creds-b", "team-b/creds-a"}[tp.Next(3)]
+	ns, n := strings.SplitN(nn, "/", 2)[0], strings.SplitN(nn, "/", 2)[1]
 	cur := &unstructured.Unstructured{}
 	cur.SetGroupVersionKind(xrworld.SecretGVK)
-	if err := st.w.Direct.Get(ctx, types.NamespacedName{Namespace: "crossplane-system", Name: n}, cur); err != nil {
+	if err := st.w.Direct.Get(ctx, types.NamespacedName{Namespace: ns, Name: n}, cur); err != nil {
 		return
 	}
-	_ = unstructured.SetNestedField(cur.Object, base64.StdEncoding.EncodeToString([]byte(fmt.Sprintf("%s-%d", n, tp.Next(1000)))), "data", "token")
+	_ = unstructured.SetNestedField(cur.Object, base64.StdEncoding.EncodeToString([]byte(fmt.Sprintf("%s-%d", nn, tp.Next(1000)))), "data", "token")
 	if tp.Next(3) == 0 {
 		_ = unstructured.SetNestedField(cur.Object, base64.StdEncoding.EncodeToString([]byte("extra")), "data", "more")
 	}
